@@ -4,8 +4,9 @@
 
     Reading guide (one dimension of a grid: [d] cells on [lo, hi), epsilon [eps], boundaries
     b_j = lo + j*(hi-lo)/d = [grid_boundary d lo hi j]; [grid_idx1] = clip (trunc ((d*(m-lo)+eps)/(hi-lo)))
-    with an integer cast that does not wrap — the behaviour the property requires; the unchanged code
-    casts to int32 first, see [C03_grid_edge_high_refuted_for_int32_first]). *)
+    with an integer cast that does not wrap — the behaviour the property requires and, by [C03_grid_clip_first_eq], what the repaired code
+    (clip in floating point, then cast; fixes/F1.patch) computes; the pre-fix code cast to int32 first, see
+    [C03_grid_edge_high_refuted_for_int32_first]). *)
 From Coq Require Import List ZArith QArith Qround Qminmax Bool Lia.
 From PV Require Import Base.MixedRadix Model.Grid Model.CVT Model.SlidingIndex
   Proofs.GridProofs Proofs.CVTProofs Proofs.SlidingIndexProofs.
@@ -64,7 +65,21 @@ Qed.
 Theorem C03_grid_clip_first_eq : forall m, grid_idx1_clip_first d lo hi eps m = grid_idx1 d lo hi eps m.
 Proof. exact (grid_idx1_clip_first_eq d lo hi eps Hd). Qed.
 
-(** the unchanged code is right exactly while the truncated raw value fits into int32 ... *)
+(** ... hence the clauses that failed before the fix hold for it, for every finite magnitude *)
+Theorem C03_grid_fixed_code_range : forall m, (0 <= grid_idx1_clip_first d lo hi eps m < d)%Z.
+Proof. exact (grid_idx1_clip_first_range d lo hi eps Hd). Qed.
+
+Theorem C03_grid_fixed_code_monotone : forall m1 m2, m1 <= m2 ->
+  (grid_idx1_clip_first d lo hi eps m1 <= grid_idx1_clip_first d lo hi eps m2)%Z.
+Proof. exact (grid_idx1_clip_first_mono d lo hi eps Hd Hw). Qed.
+
+Theorem C03_grid_fixed_code_edge_high : forall m, hi <= m -> grid_idx1_clip_first d lo hi eps m = (d - 1)%Z.
+Proof. exact (grid_idx1_clip_first_edge_high d lo hi eps Hd Hw Heps). Qed.
+
+Theorem C03_grid_fixed_code_edge_low : forall m, m <= lo -> eps < hi - lo -> grid_idx1_clip_first d lo hi eps m = 0%Z.
+Proof. exact (grid_idx1_clip_first_edge_low d lo hi eps Hd Hw). Qed.
+
+(** the PRE-FIX code (cast to int32, then clip) is right exactly while the truncated raw value fits into int32 ... *)
 Theorem C03_grid_int32_first_agrees : forall m,
   (int32_min <= Qtrunc (grid_raw d lo hi eps m) <= int32_max)%Z ->
   grid_idx1_int32_first d lo hi eps m = grid_idx1 d lo hi eps m.
@@ -76,7 +91,8 @@ Theorem C03_grid_int32_first_wraps : forall m,
 Proof. exact (grid_idx1_int32_first_wraps d lo hi eps Hd). Qed.
 End GridOneDim.
 
-(** F1: for the unchanged cast-then-clip order, edge-high (hence monotonicity) is FALSE *)
+(** F1: for the pre-fix cast-then-clip order, edge-high (hence monotonicity) is FALSE (this theorem is about
+    [grid_idx1_int32_first], the code before fixes/F1.patch, not about the repaired code) *)
 Theorem C03_grid_edge_high_refuted_for_int32_first :
   exists d lo hi eps m, (1 <= d)%Z /\ lo < hi /\ 0 <= eps /\ hi <= m /\
     grid_idx1_int32_first d lo hi eps m <> (d - 1)%Z /\
@@ -93,6 +109,11 @@ Qed.
 Theorem C03_grid_index_range : forall eps cfg m, valid_cfg cfg -> length m = length cfg ->
   (0 <= grid_index_of_one eps cfg m < prodZ (grid_dims cfg))%Z.
 Proof. exact grid_index_range. Qed.
+
+(** the repaired per-dimension code gives the same grid cells in every dimension *)
+Theorem C03_grid_fixed_code_cells : forall eps cfg, valid_cfg cfg -> forall m,
+  grid_cells grid_idx1_clip_first eps cfg m = grid_cells grid_idx1 eps cfg m.
+Proof. exact grid_cells_clip_first_eq. Qed.
 
 Theorem C03_grid_index_cells : forall eps cfg m, valid_cfg cfg -> length m = length cfg ->
   int_to_grid_index cfg (grid_index_of_one eps cfg m) = grid_cells grid_idx1 eps cfg m.
@@ -196,7 +217,8 @@ Example C03_nonvacuous_grid :
   grid_idx1 d lo hi eps (grid_boundary d lo hi 3) = 3%Z /\
   grid_idx1 d lo hi eps (3999999 # 10000000) = 4%Z /\   (* within eps/d of b_4: the adjacent cell *)
   grid_idx1 d lo hi eps 1000000000 = 9%Z /\ grid_idx1 d lo hi eps (-1000000000) = 0%Z /\
-  grid_idx1_clip_first d lo hi eps 1000000000 = 9%Z.
+  grid_idx1_clip_first d lo hi eps 1000000000 = 9%Z /\ grid_idx1_clip_first d lo hi eps (1 # 2) = 5%Z /\
+  grid_idx1_int32_first d lo hi eps 1000000000 = 0%Z.   (* the pre-fix code: F1 *)
 Proof. vm_compute. repeat split; congruence. Qed.
 
 Example C03_nonvacuous_grid_nd :
@@ -244,6 +266,11 @@ Print Assumptions C03_grid_in_cell.
 Print Assumptions C03_grid_in_cell_or_next.
 Print Assumptions C03_grid_boundary_above.
 Print Assumptions C03_grid_clip_first_eq.
+Print Assumptions C03_grid_fixed_code_range.
+Print Assumptions C03_grid_fixed_code_monotone.
+Print Assumptions C03_grid_fixed_code_edge_high.
+Print Assumptions C03_grid_fixed_code_edge_low.
+Print Assumptions C03_grid_fixed_code_cells.
 Print Assumptions C03_grid_int32_first_agrees.
 Print Assumptions C03_grid_int32_first_wraps.
 Print Assumptions C03_grid_edge_high_refuted_for_int32_first.
